@@ -14,6 +14,7 @@ The table facts (`classTablesOk`) are decided over the regenerated table, so a m
 breaks the build of this file.
 -/
 import PanqecVerif.Proofs.GuiReprCubic3D
+import PanqecVerif.Proofs.GuiReprColor666Toric
 
 namespace Panqec.C20Repr
 open Panqec.GuiRepr Panqec.Gui
@@ -138,6 +139,117 @@ theorem toric3D_code_data_valid (Lx Ly Lz : Nat) (hx : 2 ≤ Lx) (hy : 2 ≤ Ly)
   rw [hH, hX, hZ]
   exact (C01Toric3DCode.valid_code Lx Ly Lz hx hy hz).2.2.2
 
+/-! ### the other 3-D classes -/
+
+/-- `XCubeCode`, every size `Lx, Ly, Lz ≥ 2`, deformation None / XZZX, both pictures. -/
+theorem xcube_code_data (Lx Ly Lz : Nat) (hx : 2 ≤ Lx) (hy : 2 ≤ Ly) (hz : 2 ≤ Lz) (name : String)
+    (hn : name = "None" ∨ name = "XZZX") (rot : Bool) :
+    ∃ p, (xcube Lx Ly Lz).describeAll Generated.GuiFull.tables name rot = .ok p ∧
+      Faithful (xcube Lx Ly Lz) Generated.GuiFull.tables name rot p :=
+  describeAll_faithful (xcube_servable Lx Ly Lz hx hy hz name hn) rot
+
+/-- in `XCubeCode` a face stabilizer `(axis, x, y, z)` is drawn at `[x, y, z]` -/
+theorem xcube_face_location (rot : Bool) (axis x y z : Int) :
+    finalLocation (xcubeStabEdits rot [axis, x, y, z] "face") (locJV [axis, x, y, z]) = JV.ints [x, y, z] := by
+  unfold xcubeStabEdits
+  simp only [beq_self_eq_true, if_true]
+  split <;> split <;> rfl
+
+/-- `RotatedPlanar3DCode`, every size `Lx, Ly, Lz ≥ 1`, deformation None / XZZX, both pictures. -/
+theorem rotatedPlanar3D_code_data (Lx Ly Lz : Nat) (hx : 1 ≤ Lx) (hy : 1 ≤ Ly) (hz : 1 ≤ Lz) (name : String)
+    (hn : name = "None" ∨ name = "XZZX") (rot : Bool) :
+    ∃ p, (rotatedPlanar3D Lx Ly Lz).describeAll Generated.GuiFull.tables name rot = .ok p ∧
+      Faithful (rotatedPlanar3D Lx Ly Lz) Generated.GuiFull.tables name rot p :=
+  describeAll_faithful (rotatedPlanar3D_servable Lx Ly Lz hx hy hz name hn) rot
+
+/-- `RotatedToric3DCode`, every size `Lx, Ly ≥ 2` not both odd (any `Lz`), deformation None / XZZX,
+    both pictures. -/
+theorem rotatedToric3D_code_data (Lx Ly Lz : Nat) (hx : 2 ≤ Lx) (hy : 2 ≤ Ly)
+    (hodd : ¬ (Lx % 2 = 1 ∧ Ly % 2 = 1)) (name : String) (hn : name = "None" ∨ name = "XZZX") (rot : Bool) :
+    ∃ p, (rotatedToric3D Lx Ly Lz).describeAll Generated.GuiFull.tables name rot = .ok p ∧
+      Faithful (rotatedToric3D Lx Ly Lz) Generated.GuiFull.tables name rot p :=
+  describeAll_faithful (rotatedToric3D_servable Lx Ly Lz hx hy hodd name hn) rot
+
+/-- the two rotated 3-D classes stretch the z coordinate in the rotated picture (`z*1.4142`, kept
+    symbolic), for qubits and stabilizers alike; the Kitaev picture draws at the coordinate -/
+theorem rotated3D_location (rot : Bool) (x y z : Int) (t : String) :
+    finalLocation (rotated3DStabEdits rot [x, y, z] t) (locJV [x, y, z]) =
+      (if rot then .arr [JV.i x, JV.i y, JV.f (.mul14142 z)] else locJV [x, y, z]) ∧
+    finalLocation (rotated3DQubitEdits rot [x, y, z] t) (locJV [x, y, z]) =
+      (if rot then .arr [JV.i x, JV.i y, JV.f (.mul14142 z)] else locJV [x, y, z]) := by
+  unfold rotated3DStabEdits rotated3DQubitEdits stretchedLocation
+  cases rot <;> constructor <;> simp only [Bool.not_true, Bool.not_false, Bool.false_eq_true, if_true, if_false] <;>
+    (repeat' split) <;> simp [finalLocation, locJV, JV.ints]
+
+/-- `RhombicToricCode`, every size `Lx, Ly, Lz ≥ 2` (the lattice model is well-formed for every such
+    size; the class documents even sizes), deformation None / Checkerboard XZZX, both pictures. -/
+theorem rhombicToric_code_data (Lx Ly Lz : Nat) (hx : 2 ≤ Lx) (hy : 2 ≤ Ly) (hz : 2 ≤ Lz) (name : String)
+    (hn : name = "None" ∨ name = "Checkerboard XZZX") (rot : Bool) :
+    ∃ p, (rhombicToric Lx Ly Lz).describeAll Generated.GuiFull.tables name rot = .ok p ∧
+      Faithful (rhombicToric Lx Ly Lz) Generated.GuiFull.tables name rot p :=
+  describeAll_faithful (rhombicToric_servable Lx Ly Lz hx hy hz name hn) rot
+
+/-- `RhombicPlanarCode`, every size `Lx, Ly ≥ 2`, `Lz ≥ 1`, deformation None / Checkerboard XZZX,
+    both pictures. -/
+theorem rhombicPlanar_code_data (Lx Ly Lz : Nat) (hx : 2 ≤ Lx) (hy : 2 ≤ Ly) (hz : 1 ≤ Lz) (name : String)
+    (hn : name = "None" ∨ name = "Checkerboard XZZX") (rot : Bool) :
+    ∃ p, (rhombicPlanar Lx Ly Lz).describeAll Generated.GuiFull.tables name rot = .ok p ∧
+      Faithful (rhombicPlanar Lx Ly Lz) Generated.GuiFull.tables name rot p :=
+  describeAll_faithful (rhombicPlanar_servable Lx Ly Lz hx hy hz name hn) rot
+
+/-- `HollowRhombicCode`, every size `Lx, Ly ≥ 2`, `Lz ≥ 3`, deformation None / Checkerboard XZZX,
+    both pictures (the parity-check matrix is `rowsH` of the lattice model; its rank defect at sides
+    ≥ 6 is the C01 finding, not a visualizer matter). -/
+theorem hollowRhombic_code_data (Lx Ly Lz : Nat) (h : C01HollowRhombicCode.Family Lx Ly Lz) (name : String)
+    (hn : name = "None" ∨ name = "Checkerboard XZZX") (rot : Bool) :
+    ∃ p, (hollowRhombic Lx Ly Lz).describeAll Generated.GuiFull.tables name rot = .ok p ∧
+      Faithful (hollowRhombic Lx Ly Lz) Generated.GuiFull.tables name rot p :=
+  describeAll_faithful (hollowRhombic_servable Lx Ly Lz h name hn) rot
+
+/-- `Color3DCode` (no deformation offered), every size with all sides even and `≥ 2`, both pictures. -/
+theorem color3D_code_data (Lx Ly Lz : Nat) (h : C01Color3DCode.Family Lx Ly Lz) (rot : Bool) :
+    ∃ p, (color3D Lx Ly Lz).describeAll Generated.GuiFull.tables "None" rot = .ok p ∧
+      Faithful (color3D Lx Ly Lz) Generated.GuiFull.tables "None" rot p :=
+  describeAll_faithful (color3D_servable Lx Ly Lz h) rot
+
+/-! ### the 2-D colour codes (the X/Z index of a stabilizer location is dropped: drawn at `(x, y)`) -/
+
+/-- `Color488Code`, every square size `L ≥ 1`, deformation None / XXZZ, both pictures — the
+    `rotated` entries exist since fix 97df331. -/
+theorem color488_code_data (L : Nat) (hL : 1 ≤ L) (name : String) (hn : name = "None" ∨ name = "XXZZ")
+    (rot : Bool) :
+    ∃ p, (color488 L L).describeAll Generated.GuiFull.tables name rot = .ok p ∧
+      Faithful (color488 L L) Generated.GuiFull.tables name rot p :=
+  describeAll_faithful (color488_servable L hL name hn) rot
+
+/-- `Color666PlanarCode` (no deformation offered; `Ly` is ignored by the class), every `Lx ≥ 1`, both
+    pictures. -/
+theorem color666Planar_code_data (Lx Ly : Nat) (hx : 1 ≤ Lx) (rot : Bool) :
+    ∃ p, (color666Planar Lx Ly).describeAll Generated.GuiFull.tables "None" rot = .ok p ∧
+      Faithful (color666Planar Lx Ly) Generated.GuiFull.tables "None" rot p :=
+  describeAll_faithful (color666Planar_servable Lx Ly hx) rot
+
+/-- `Color666ToricCode`, every square size `L ≥ 1`, deformation None / X3Z3, both pictures (the
+    override rescales the polygon of the configuration entry by 1/2 for the X faces). -/
+theorem color666Toric_code_data (L : Nat) (hL : 1 ≤ L) (name : String) (hn : name = "None" ∨ name = "X3Z3")
+    (rot : Bool) :
+    ∃ p, (color666Toric L L).describeAll Generated.GuiFull.tables name rot = .ok p ∧
+      Faithful (color666Toric L L) Generated.GuiFull.tables name rot p :=
+  (color666Toric_served L hL name hn).faithful rot
+
+/-- the three 2-D colour codes draw the stabilizer `(x, y, p)` at `(x, y)` -/
+theorem color2D_location (Lx Ly : Nat) (rot : Bool) (x y p : Int) (t : String) :
+    finalLocation (color488StabEdits Lx Ly rot [x, y, p] t) (locJV [x, y, p]) = JV.ints [x, y] ∧
+    finalLocation (color666PlanarStabEdits Lx rot [x, y, p] t) (locJV [x, y, p]) = JV.ints [x, y] ∧
+    finalLocation (color666ToricStabEdits rot [x, y, p] t) (locJV [x, y, p]) = JV.ints [x, y] := by
+  refine ⟨?_, ?_, rfl⟩
+  · unfold color488StabEdits
+    simp only [List.singleton_append]
+    (repeat' split) <;> rfl
+  · unfold color666PlanarStabEdits
+    simp only [List.singleton_append, List.append_assoc]
+    (repeat' split) <;> rfl
+
 /-! ### non-vacuity -/
 
 example : ∃ p, (toric3D 2 3 4).describeAll Generated.GuiFull.tables "XZZX" true = .ok p ∧
@@ -162,6 +274,22 @@ example : (((toric3D 2 2 2).stabRepr Generated.GuiFull.tables false [0, 1, 1]).t
     (getKey · "color")).map (JV.beq (.obj [("activated", .str "0xf1c232"), ("deactivated", .str "0x48BEFF")])) =
     some true := by
   decide +kernel
+
+/-- tagged constants: a face of `RotatedPlanar3DCode` with even `z` is, in the rotated picture, drawn at
+    `z*1.4142` and turned by `np.pi/4` -/
+example : (((rotatedPlanar3D 2 2 2).stabRepr Generated.GuiFull.tables true [1, 1, 2]).toOption.bind
+    (getKey · "location")).map (JV.beq (.arr [.i 1, .i 1, .f (.mul14142 2)])) = some true := by
+  decide +kernel
+example : ((((rotatedPlanar3D 2 2 2).stabRepr Generated.GuiFull.tables true [1, 1, 2]).toOption.bind
+    (getKey · "params")).bind fun p => match p with | .obj d => getKey d "angle" | _ => none).map
+    (JV.beq (.f .piDiv4)) = some true := by
+  decide +kernel
+/-- exact halves: `np.array([[-1, -2], [2, 0]]) * 0.5` is `[[-0.5, -1.0], [1.0, 0.0]]`, and the int
+    factor of the Z faces leaves the integers alone -/
+example : beqList (scaleRows true [JV.ints [-1, -2], JV.ints [2, 0]])
+    [.arr [.d (-5) 1, .d (-10) 1], .arr [.d 10 1, .d 0 1]] = true := by decide +kernel
+example : beqList (scaleRows false [JV.ints [-1, -2], JV.ints [2, 0]])
+    [JV.ints [-1, -2], JV.ints [2, 0]] = true := by decide +kernel
 
 /-- a table without the `rotated` entries fails (the defect fixed by 97df331) -/
 example : ∃ e, (toric2D 2 2).describeAll ⟨Generated.GuiFull.entries.filter (·.picture != "rotated"),
